@@ -311,7 +311,29 @@ def moved_stream(ctx, n):
             ctx.disagree(f"C16:moved:{how}", desc, (True, False, exp_old), r[1:3], replay=[desc])
 
 
+def moved2d_stream(ctx, n):
+    """a polygon of the plane that has already answered a query is moved (translation, + Point) and asked again"""
+    import geometer as g
+    rng = ctx.rng
+    for k in range(n):
+        vs = [(0, 0), (4, 0), (4, 3), (2, 1), (0, 3)] if k % 2 else [(0, 0), (3, 0), (3, 2), (0, 2)]
+        sh = [float(rng.choice([10, -7, 5])), float(rng.choice([20, 6, -9]))]
+        inside = (1.0, 0.5)
+        desc = f"2-D polygon {vs}: contains, then moved by {sh}, then contains"
+        ctx.case(desc)
+        ctx.count("moved2d")
+        def run():
+            P = g.Polygon(*[g.Point(float(x), float(y)) for x, y in vs])
+            before = bool(P.contains(g.Point(*inside)))
+            Q = g.translation(*sh) * P if k % 3 else P + g.Point(*sh)
+            return before, bool(Q.contains(g.Point(inside[0] + sh[0], inside[1] + sh[1]))), bool(Q.contains(g.Point(*inside))), bool(P.contains(g.Point(*inside)))
+        r = call_impl(run)
+        if r[0] != "ok" or r[1] != (True, True, False, True):
+            ctx.disagree("C16:moved2d", desc, (True, True, False, True), r[1:3], replay=[desc])
+
+
 def correspondence(ctx):
+    moved2d_stream(ctx, ctx.budget(20, 200))
     moved_stream(ctx, ctx.budget(40, 400))
     if ctx.tier == "thorough":
         polygon_stream(ctx, 0, True)
@@ -321,7 +343,7 @@ def correspondence(ctx):
     collection_stream(ctx, ctx.budget(60, 600))
     import colllib
     colllib.run(ctx, ctx.budget(200, 2500), prefix="C16",
-                only={"polygon3.area-then-contains", "polygon3.contains", "segment.contains", "segment3.contains", "triangle.contains"},
+                only={"polygon3.area-then-contains", "polygon3.contains", "segment.contains", "segment3.contains", "triangle.contains", "triangle.contains-edge"},
                 patterns=["k", "1", "k1", "1k", "mixed"])      # collections with different numbers of axes: C04 (KF-C04-1)
     # membership does not depend on the representatives of the vertices / of the point (vertex-wise factors of both signs)
     from props import c03
